@@ -258,6 +258,8 @@ BuildOut(p, k) ==
 SpecDist == FoldSet(LAMBDA p, f : LET o == BuildOut(p, 0) IN IF o \in DOMAIN f THEN [f EXCEPT ![o] = @ + 1] ELSE f @@ (o :> 1),
                     <<>>, SpecPaths)
 SpecPathCount == Cardinality(CapChoices) * IPow(info.size, info.L) * IPow(Cardinality(SepValues), info.L - 1)
+\* a*b <= c*d without TLC's 32-bit overflow (masses have denominators up to 2^31)
+ProdLeq(a, b, c, d) == ~Lt(Mul(FromInt(c), FromInt(d)), Mul(FromInt(a), FromInt(b)))
 DistDecidable(c) == info.sep.uniform /\ failW = 0 /\ c.wl.len >= 1 /\ c.size >= 1 /\ c.size = Len(c.kept) /\ Len(c.keptTitles) = Len(c.kept)
                     /\ SpecPathCount <= 4000
 
@@ -293,8 +295,8 @@ EndWhys(c) ==
                             \* [acc[o], acc[o] + cutW]; with cutW = 0 this is equality
                             IN /\ DOMAIN acc \subseteq DOMAIN sd
                                /\ (cutW = 0 => DOMAIN sd = DOMAIN acc)
-                               /\ \A o \in DOMAIN acc : acc[o] * n <= sd[o] * totW /\ sd[o] * totW <= (acc[o] + cutW) * n
-                               /\ \A o \in (DOMAIN sd) \ (DOMAIN acc) : sd[o] * totW <= cutW * n)
+                               /\ \A o \in DOMAIN acc : ProdLeq(acc[o], n, sd[o], totW) /\ ProdLeq(sd[o], totW, acc[o] + cutW, n)
+                               /\ \A o \in (DOMAIN sd) \ (DOMAIN acc) : ProdLeq(sd[o], totW, cutW, n))
       THEN "P:C04:password-distribution-is-not-that-of-uniform-independent-word-capitalisation-and-separator-choices" ELSE "ok",
     \* C06: no password likelier than 2^-Entropy (min-entropy), equality when uniform
     IF c.ent.k # "panic" /\ info.premise /\ info.sep.uniform /\
